@@ -216,6 +216,44 @@ def fam_except(E, nchildren, nentries):
                 ('except %r catches %r although the rule says no match', handler, failure))
 
 
+def fam_history(E, nchildren, nentries, churn=300):
+    """equal specialisations stay the identical class over a long history: a handler type and a
+    failure type are obtained, then `churn` unrelated specialisations are created (kept alive or
+    dropped at once), then the same specialisation / the same set of child types is asked for
+    again - identity, and matching against the object kept from before, must be unchanged"""
+    def rel(a, b):
+        return issubclass(a, b)
+    nc = E.pick('nchildren', nchildren) + 1
+    ctypes = [REAL[E.pick('c%d' % i, 4)] for i in range(nc)]
+    ne = E.pick('nentries', nentries) + 1
+    entries = [REAL[E.pick('h%d' % i, 5)] for i in range(ne)]
+    incl = E.flag('ellipsis')
+    keep = E.flag('keep')
+    spec = tuple(entries) + ((...,) if incl else ())
+    spec = spec if len(spec) > 1 else spec[0]
+    handler = Concurrent[spec]
+    failure = Concurrent(*[t('child') for t in ctypes])
+    ftype = type(failure)
+    kept = []
+    for i in range(churn):
+        other = type('Other%d' % i, (Exception,), {})
+        o = Concurrent[other] if i % 2 else type(Concurrent(other()))
+        if keep:
+            kept.append(o)
+    again = Concurrent[spec]
+    E.prove(again is handler, 'equal-specialisations-are-identical',
+            ('after %d other specialisations Concurrent[%r] is a new class', churn, spec))
+    failure2 = Concurrent(*[t('child') for t in reversed(ctypes)])
+    E.prove(type(failure2) is ftype, 'type-determined-by-the-set-of-child-types',
+            ('after %d other specialisations the same child types give a new class', churn))
+    want = r_match(tuple(dict.fromkeys(entries)), incl, tuple(ctypes), rel)
+    E.reach('want-match' if want else 'want-no-match')
+    for f in (failure, failure2):
+        for h in (handler, again):
+            E.prove(isinstance(f, h) == want and issubclass(type(f), h) == want,
+                    'isinstance-follows-the-rule')
+
+
 FAMILIES = [
     Family('plain', fam_symbolic,
            quick=dict(n=3, nchildren=3, nentries=2),
@@ -228,6 +266,11 @@ FAMILIES = [
            reach=['match', 'no-match', 'nested'], nonrepro='inconclusive',
            bounds='children may be Concurrent(a) / Concurrent(a,b), entries may be bare Concurrent, '
                   'Concurrent[a], Concurrent[a, ...]'),
+    Family('history', fam_history,
+           quick=dict(nchildren=2, nentries=2), thorough=dict(nchildren=3, nentries=3, churn=2000),
+           reach=['want-match', 'want-no-match'],
+           bounds='real hierarchy; 300 (thorough 2000) unrelated specialisations are created '
+                  'between two requests for the same specialisation'),
     Family('except', fam_except,
            quick=dict(nchildren=2, nentries=2),
            thorough=dict(nchildren=3, nentries=3),
